@@ -1,6 +1,20 @@
 """Common driver of the engine-A checks (C07, C08, C09, C11, C12 and the run parts of C13)."""
+import collections
+import fnmatch
+import json
+import os
+
 from .. import envdrive, specs as specmod
-from ..core import HarnessError
+from ..core import HarnessError, VERIF
+
+
+def anchor_patterns(prop):
+    with open(os.path.join(VERIF, "properties.jsonl")) as f:
+        for line in f:
+            p = json.loads(line)
+            if p["id"] == prop:
+                return list(p["anchors"]["files"])
+    raise HarnessError("property %s not found in properties.jsonl" % prop)
 
 
 def run_monitors(ctx, res, monitors, spec_filter=None, prefixes=None):
@@ -10,7 +24,8 @@ def run_monitors(ctx, res, monitors, spec_filter=None, prefixes=None):
         sp = [s for s in sp if spec_filter(s)]
     k = 2 if ctx.thorough else 1
     baselines = [0, 1, 2, 3] if ctx.thorough else [0, 1 + ctx.seed % 3]
-    bad, st = envdrive.explore(sp, monitors, 1, baselines, ctx.cores)
+    bad, st = envdrive.explore(sp, monitors, 1, baselines, ctx.cores, derive=specmod.fast_variant)
+    sp = sp + st.get("derived_specs", [])
     if ctx.thorough:
         # two deviations around the constant-median baseline on the cheaper specs
         cheap = [s for s in sp if st["per_spec"].get(s.name, {}).get("draws", 10 ** 9) <= 110]
@@ -23,11 +38,28 @@ def run_monitors(ctx, res, monitors, spec_filter=None, prefixes=None):
         for name, err in st["build_failures"]:
             res.add("build-failure", {"spec": name}, "configuration %s could not be built: %s" % (name, err[:600]))
     byname = {s.name: s for s in sp}
-    wanted = tuple(prefixes or [m + ":" for m in monitors]) + ("exception",)
+    wanted = tuple(prefixes or [m + ":" for m in monitors])
+    anchors = anchor_patterns(ctx.prop)
     seen = set()
+    st["float_ties"] = 0
+    st["foreign_exceptions"] = collections.Counter()
     for r in bad:
         for key, msg in r["violations"]:
-            if not key.startswith(wanted):
+            if key == "exception-tie":
+                st["float_ties"] += 1
+                continue
+            if key.startswith("exception:"):
+                # an exception escaping the code under test counts for the property whose anchored code raised it
+                # (TagActivatorError: demand exceeds supply -> C09 wherever it surfaces)
+                rel = key.split(":", 1)[1]
+                mine = any(fnmatch.fnmatch("jellyfysh/" + rel, pat) for pat in anchors)
+                if "TagActivatorError" in msg:
+                    mine = ctx.prop == "C09"
+                if not mine:
+                    st["foreign_exceptions"][rel] += 1
+                    continue
+                key = "exception"
+            elif not key.startswith(wanted):
                 continue
             case = {"spec": byname[r["spec"]].to_json(), "baseline": r["baseline"],
                     "deviations": [[list(_jl(k)), a] for k, a in r["deviations"]],
@@ -61,13 +93,17 @@ def coverage(st, monitors, extra_rule=""):
                 "distinct_nontrivial = distinct commit logs (handler, time, out-state) observed. " + extra_rule,
         "samples": [sample, {"committed_event_counts": dict(st["handlers"].most_common(12))}],
         "per_configuration": per, "capped": st["capped"], "exhaustive": not st["capped"],
+        "float_ties_observed": st.get("float_ties", 0),
+        "exceptions_in_code_not_anchored_by_this_property": dict(st.get("foreign_exceptions", {})),
         "configurations": len(per),
     }
 
 
 def replay(ctx, case, monitors=None):
     ex = envdrive.replay_case(case, tuple(case.get("monitors") or monitors))
-    keys = sorted(set(k for k, _ in ex.violations if k == case.get("key")))
+    want = case.get("key")
+    keys = sorted(set("exception" if k.startswith("exception:") else k for k, _ in ex.violations))
+    keys = [k for k in keys if k == want]
     return keys or None
 
 
